@@ -15,7 +15,7 @@ META = dict(
     technique='symbolic execution of the traced TF graphs of PWLCalibration.call / keypoints_inputs / keypoints_outputs and '
               'CategoricalCalibration.call with symbolic kernel, logits and inputs; reference piecewise-linear interpolation '
               'by cases (left of range, segment i, right of range); z3 (QF_NRA, bilinear weight x kernel terms); softmax by '
-              'its contract (positive, sums to 1)',
+              'its contract (positive, sums to 1); the documented output form (list iff split_outputs and units > 1) is executed',
     bounds=dict(
         quick='2-4 keypoints with spacings uniform and (1,2,1/2); units 1-2; single-column and per-unit inputs; split_outputs; '
               'cyclic; both missing-value modes; fixed and learned_interior keypoints; 3-4 buckets with default value; all real '
